@@ -55,7 +55,7 @@ var baseWeights = map[string]int{
 	"propose": 8, "proposebatch": 1, "proposeconf": 2, "transfer": 1, "readindex": 2,
 	"campaign": 1, "forget": 1, "unreachable": 1, "reportsnap": 3, "compact": 1,
 	"crash": 1, "restart": 4, "isolate": 1, "blocklink": 1, "heal": 2,
-	"duprecent": 2, "diverge": 1, "proposemixed": 1, "burst": 3, "slowdisk": 2, "lagcompact": 1, "stallelect": 1,
+	"duprecent": 2, "diverge": 1, "proposemixed": 1, "burst": 3, "slowdisk": 2, "lagcompact": 1, "stallelect": 1, "hold": 1, "release": 2, "snaprace": 0,
 }
 
 func mkProfile(name string, over map[string]int, f func(p *Profile)) *Profile {
@@ -79,7 +79,7 @@ var Profiles = map[string]*Profile{
 	"elect": mkProfile("elect", map[string]int{"tick": 20, "tickall": 10, "tickcampaign": 6, "campaign": 4, "transfer": 4,
 		"dup": 6, "crash": 3, "restart": 8, "propose": 4, "forget": 2, "isolate": 3}, func(p *Profile) { p.PPreVote, p.PCheckQuorum = 50, 50 }),
 	"crash": mkProfile("crash", map[string]int{"stallelect": 3, "crash": 6, "restart": 14, "step": 30, "service": 15, "propose": 10}, func(p *Profile) { p.PAsync = 60 }),
-	"snap": mkProfile("snap", map[string]int{"compact": 8, "lagcompact": 5, "isolate": 4, "heal": 4, "propose": 12, "proposeconf": 3, "dup": 5,
+	"snap": mkProfile("snap", map[string]int{"compact": 8, "lagcompact": 5, "snaprace": 4, "hold": 2, "isolate": 4, "heal": 4, "propose": 12, "proposeconf": 3, "dup": 5,
 		"reportsnap": 6, "crash": 2}, func(p *Profile) { p.PJoiner = 60 }),
 	"conf": mkProfile("conf", map[string]int{"proposeconf": 10, "tickcampaign": 4, "campaign": 3, "crash": 2, "restart": 6,
 		"isolate": 3, "compact": 3, "step": 20}, func(p *Profile) { p.PJoiner = 70 }),
@@ -91,7 +91,7 @@ var Profiles = map[string]*Profile{
 		"dup": 4, "isolate": 2}, func(p *Profile) { p.AllowZeroApplyQuota = true }),
 	// asnap: asynchronous storage threads that stall, combined with frequent
 	// compaction (snapshots) and frequent leader changes.
-	"asnap": mkProfile("asnap", map[string]int{"compact": 10, "slowdisk": 8, "lagcompact": 6, "stallelect": 5, "transfer": 6, "tickcampaign": 5, "campaign": 3, "propose": 12,
+	"asnap": mkProfile("asnap", map[string]int{"compact": 10, "slowdisk": 8, "lagcompact": 6, "stallelect": 5, "snaprace": 4, "hold": 2, "transfer": 6, "tickcampaign": 5, "campaign": 3, "propose": 12,
 		"isolate": 3, "heal": 4, "step": 10, "burst": 5, "reportsnap": 6, "dup": 4}, func(p *Profile) { p.PAsync = 90; p.PJoiner = 50 }),
 	// det: union profile with large groups (sets of more than 7 ids are
 	// iterated through different code paths) for the determinism check.
@@ -444,6 +444,24 @@ func (s *Sim) RandomAction(p *Profile) {
 		s.Stats.inc("async.stalled")
 	})
 	add("burst", len(deliverable) > 0, func() { s.Burst(s.Nodes[s.Net.Pool[deliverable[d.Int(0, len(deliverable)-1, "flight")]].To]) })
+	var held []*Flight
+	for _, f := range s.Net.Pool {
+		if f.Held {
+			held = append(held, f)
+		}
+	}
+	add("hold", len(deliverable) > 0, func() {
+		f := s.Net.Pool[deliverable[d.Int(0, len(deliverable)-1, "flight")]]
+		s.begin("Hold(#%d %s)", f.ID, shortMsg(f.M))
+		f.Held = true
+		s.Stats.inc("net.hold")
+	})
+	add("release", len(held) > 0, func() {
+		f := held[d.Int(0, len(held)-1, "held")]
+		s.begin("Release(#%d %s)", f.ID, shortMsg(f.M))
+		f.Held = false
+	})
+	add("snaprace", len(up) >= 2, func() { s.SnapshotRace(p) })
 	add("diverge", len(up) >= 3, func() { s.Diverge(p) })
 	add("lagcompact", len(up) >= 2, func() { s.LagAndCompact(p) })
 	add("stallelect", len(asyncUp) > 0 && len(up) >= 2, func() { s.StallThroughElection(p, asyncUp[d.Int(0, len(asyncUp)-1, "node")]) })
@@ -1101,3 +1119,96 @@ func RunScript(w WorldOpts, owned []string, exclude map[string]bool, script func
 
 // Leader returns the current leader node (nil if none).
 func (s *Sim) Leader() *Node { return s.leaderNode() }
+
+// SnapshotRace: a snapshot to a lagging follower gets stuck in its stream, the
+// transport reports it failed, the leader compacts further and sends a newer
+// snapshot which arrives first; the old one arrives afterwards, possibly
+// before the newer one has been applied.
+func (s *Sim) SnapshotRace(p *Profile) {
+	d := s.D
+	s.begin("SnapshotRace")
+	l := s.leaderNode()
+	if l == nil {
+		return
+	}
+	var others []*Node
+	for _, n := range s.upNodes() {
+		if n.ID != l.ID {
+			others = append(others, n)
+		}
+	}
+	if len(others) == 0 {
+		return
+	}
+	f := others[d.Int(0, len(others)-1, "laggard")]
+	s.LagAndCompact(p)
+	// find (and hold) the snapshot for the laggard, if one was produced
+	s.stabilizeHolding(f.ID, 4)
+	var first *Flight
+	for _, fl := range s.Net.Pool {
+		if fl.M.GetType() == pb.MsgSnap && fl.Held {
+			first = fl
+		}
+	}
+	if first == nil {
+		return
+	}
+	s.Stats.inc("macro.snaprace_first_held")
+	for k := len(s.Net.Owed) - 1; k >= 0; k-- {
+		if o := s.Net.Owed[k]; o.To == first.To && o.Leader == first.From {
+			s.ReportSnap(k, true)
+			break
+		}
+	}
+	if l = s.leaderNode(); l == nil {
+		return
+	}
+	k := d.Int(1, 3, "moreprops")
+	for i := 0; i < k && l.Up; i++ {
+		s.Propose(l, s.drawSize(p))
+	}
+	s.stabilize(4)
+	if l.Up {
+		if lo, hi := s.compactRange(l); hi > lo {
+			s.Compact(l, hi, hi)
+		}
+		for i := 0; i < 2*l.Opts.HeartbeatTick && l.Up; i++ {
+			s.tick(l)
+		}
+	}
+	target := s.Nodes[first.To]
+	if d.Int(0, 1, "stalltarget") == 1 && target.Up && target.Opts.Async {
+		target.SlowAppend = true
+	}
+	s.stabilize(4)
+	if d.Int(0, 2, "releasenow") > 0 {
+		first.Held = false
+		s.Stats.inc("macro.snaprace_released")
+		for i, fl := range s.Net.Pool {
+			if fl == first && target.Up && !s.Net.blocked(fl.From, fl.To) {
+				s.Deliver(i, false)
+				break
+			}
+		}
+	}
+}
+
+// stabilizeHolding is stabilize, but MsgSnap flights addressed to `to` are
+// held back instead of delivered.
+func (s *Sim) stabilizeHolding(to uint64, rounds int) {
+	for r := 0; r < rounds; r++ {
+		for _, fl := range s.Net.Pool {
+			if fl.M.GetType() == pb.MsgSnap && fl.To == to {
+				fl.Held = true
+			}
+		}
+		if !s.stabilize(1) {
+			break
+		}
+	}
+	for _, fl := range s.Net.Pool {
+		if fl.M.GetType() == pb.MsgSnap && fl.To == to {
+			fl.Held = true
+		}
+	}
+}
